@@ -33,7 +33,13 @@ impl<'a> Decoder<'a> {
     /// Returns `None` at the end of the bytecode stream.
     pub fn decode(&mut self) -> Option<Result<Instruction<'a>, DecodeError>> {
         let opcode = Opcode::from_byte(*self.bytecode.get(self.pc)?);
-        Some(self.decode_inner(opcode))
+        let result = self.decode_inner(opcode);
+        if result.is_err() {
+            // a truncated instruction ends the stream: without this the same error would be
+            // returned forever (the program counter is not advanced on failure)
+            self.pc = self.bytecode.len();
+        }
+        Some(result)
     }
 
     fn decode_inner(&mut self, opcode: Opcode) -> Result<Instruction<'a>, DecodeError> {
